@@ -163,6 +163,7 @@ class SimCluster:
         self.idx = 0
         self.shutdowns = 0
         self.trace: list = []
+        self.overtake = False
         self.fail_at: int | None = None  # recv_events call index at which a failure is injected (C05)
         self.recv_calls = 0
         self.consumers: dict = {}
@@ -297,6 +298,8 @@ class SimCluster:
                         # a generator publishes output by output while it is still running: stage them
                         self.stores[w.host].defer = True
                         self._staging = []
+                    inst = self.job.tasks[t]
+                    before = (dict(inst.static_input_kw), dict(inst.static_input_ps))
                     try:
                         run(t, ectx, self.memories[w])
                     except Violation:
@@ -305,6 +308,8 @@ class SimCluster:
                         raise Violation("task-failed-in-worker", f"{t}@{w}: {type(e).__name__}: {e}")
                     finally:
                         self.stores[w.host].defer = False
+                    if (dict(inst.static_input_kw), dict(inst.static_input_ps)) != before:
+                        raise Violation("running-a-task-modified-the-job", f"{t}: static inputs {before} -> {(dict(inst.static_input_kw), dict(inst.static_input_ps))} (another node sharing this task description computes with them)")
                     if multi:
                         evs, self._staging = self._staging, None
                         for k, ev in enumerate(evs):
@@ -364,6 +369,9 @@ class SimCluster:
                     raise Violation("stuck-pending-never-enabled", f"controller waits but pending {[(p[0], repr(p[1])) for p in self.pending]} can never run")
                 raise Violation("waits-with-nothing-outstanding", "recv_events called while no command is outstanding and no event is queued")
             options = [("act", i) for i in en] + [("deliver", q) for q in qs] + ([("return", None)] if events else [])
+            if self.overtake:
+                # a message that was lost and retried is overtaken by the one sent after it
+                options += [("overtake", q) for q in qs if len(self.queues[q]) >= 2]
             if self.budget > 0 and len(options) > 1:
                 self.budget -= 1
                 kind, arg = options[self.ch.pick(len(options), f"sched{len(self.trace)}")]
@@ -377,8 +385,13 @@ class SimCluster:
                     kind, arg = "act", en[0]
             if kind == "return":
                 return events
-            if kind == "deliver":
-                ev = self.queues[arg].popleft()
+            if kind in ("deliver", "overtake"):
+                if kind == "overtake":
+                    first = self.queues[arg].popleft()
+                    ev = self.queues[arg].popleft()
+                    self.queues[arg].appendleft(first)
+                else:
+                    ev = self.queues[arg].popleft()
                 if isinstance(ev, DatasetTransmitPayload):
                     self.delivered_outputs.add(ev.header.ds)
                 events.append(ev)
